@@ -145,29 +145,43 @@ pub fn run_scenario(sc: &Scenario) -> ScenarioOut {
             // keep the sender alive: a closed fault channel must not look like anything
             std::future::pending::<()>().await;
         });
-        let mut sb = Server::builder();
-        if let Some(w) = sc.server_window {
-            sb = sb.initial_stream_window_size(Some(w));
-        }
-        if let Some(f) = sc.max_frame {
-            sb = sb.max_frame_size(Some(f));
-        }
-        if let Some(t) = sc.server_timeout {
-            sb = sb.timeout(t);
-        }
-        if let Some(a) = sc.max_connection_age {
-            sb = sb.max_connection_age(a);
-        }
         let knob = 1 + (sc.seed % 3) as usize;
-        if sc.opts & 1 != 0 {
-            sb = sb.concurrency_limit_per_connection(knob);
+        macro_rules! settings {
+            ($sb:ident) => {
+                if let Some(w) = sc.server_window {
+                    $sb = $sb.initial_stream_window_size(Some(w));
+                }
+                if let Some(f) = sc.max_frame {
+                    $sb = $sb.max_frame_size(Some(f));
+                }
+                if let Some(t) = sc.server_timeout {
+                    $sb = $sb.timeout(t);
+                }
+                if let Some(a) = sc.max_connection_age {
+                    $sb = $sb.max_connection_age(a);
+                }
+                if sc.opts & 1 != 0 {
+                    $sb = $sb.concurrency_limit_per_connection(knob);
+                }
+                // (bit 1, `max_concurrent_streams`, is not used: a client that opens streams before the
+                // server's SETTINGS arrive gets REFUSED_STREAM for the surplus - HTTP/2 behaviour, retriable,
+                // and nothing a handler produced)
+                if sc.opts & 4 != 0 {
+                    $sb = $sb.http2_keepalive_interval(Some(Duration::from_millis(15))).http2_keepalive_timeout(Some(Duration::from_millis(20)));
+                }
+            };
         }
-        // (bit 1, `max_concurrent_streams`, is not used: a client that opens streams before the
-        // server's SETTINGS arrive gets REFUSED_STREAM for the surplus - HTTP/2 behaviour, retriable,
-        // and nothing a handler produced)
-        if sc.opts & 4 != 0 {
-            sb = sb.http2_keepalive_interval(Some(Duration::from_millis(15))).http2_keepalive_timeout(Some(Duration::from_millis(20)));
-        }
+        // a (no-op) tower layer is added either before or after the other builder calls: the
+        // builder must carry every setting across `layer`
+        let mut sb = if (sc.seed >> 5) % 2 == 0 {
+            let mut b = Server::builder().layer(tower::layer::util::Identity::new());
+            settings!(b);
+            b
+        } else {
+            let mut b = Server::builder();
+            settings!(b);
+            b.layer(tower::layer::util::Identity::new())
+        };
         let router = sb.add_service(VerifServer::new(h.clone()));
         let slog = log.clone();
         let signal = sc.signal.clone();
